@@ -334,15 +334,9 @@ def install3(R):
     c.ensures = [("removed", "crop_removed(self.location)"), ("outside", "fs_unchanged_outside(self.location)")]
 
     # ---------------------------------------------------------------- farmers (caller side; bodies under C05/C15)
-    R.add(FARM + "Sampler.add_df", cls="Sampler", result="none", assumed=True,
-          modifies=["self._full_df", "ghost:FS"],
-          ensures=[("only_data_file", "fs_same_except(TableOf(self))")],
-          raises={"AnyError": dict(ensures=["fs_same_except(TableOf(self))"])},
-          notes="summary: touches only the sampler's own data file (C15 verifies the body)")
-
     def table_of(eng, fr, smp):
-        """the file a Sampler keeps its table in (its data_name), as a function of the sampler object"""
-        return mk_V(z3.Function("sampler_table", V, V)(eng.as_V(smp)))
+        """the file a Sampler keeps its table in (constructor-only field data_name)"""
+        return mk_V(z3.Function("field:Sampler.data_name", V, V)(eng.as_V(smp)))
     S["TableOf"] = table_of
 
     def harvest_path(eng, fr, h):
@@ -445,7 +439,8 @@ def install3(R):
 
     R.add(K + "Crop.reap_samples", cls="Crop", result="V", props=["C06", "C09"], types={"sampler": "obj:Sampler"},
           requires=[("sown", "fs_exists(InfoPath(self.location))"),
-                    ("table_file_outside_crop", "implies(sampler is not None, not under(self.location, TableOf(sampler)))")],
+                    ("table_file_outside_crop", "implies(sampler is not None, not under(self.location, TableOf(sampler)))"),
+                    ("sampler_named", "implies(sampler is not None and TableOf(sampler) is not None, is_str_value(TableOf(sampler)) and not IsTmp(TableOf(sampler)))")],
           modifies=["*"],
           ensures=[
               ("reaps_to_df", "call_arg('Crop.reap_runner', 'to_df') == True and call_arg('Crop.reap_runner', 'runner') == old(sampler.runner) "
@@ -462,7 +457,9 @@ def install3(R):
           requires=[("sown", "fs_exists(InfoPath(self.location))"),
                     ("data_file_outside_crop", "implies(isinstance(self.farmer, Harvester), not under(self.location, HarvestPathV(self.farmer)))"),
                     ("harvester_named", "implies(isinstance(self.farmer, Harvester), HarvesterNamedV(self.farmer))"),
-                    ("table_file_outside_crop", "implies(isinstance(self.farmer, Sampler), not under(self.location, TableOf(self.farmer)))")],
+                    ("table_file_outside_crop", "implies(isinstance(self.farmer, Sampler), not under(self.location, TableOf(self.farmer)))"),
+                    ("sampler_named", "implies(isinstance(self.farmer, Sampler) and TableOf(self.farmer) is not None, "
+                                      "is_str_value(TableOf(self.farmer)) and not IsTmp(TableOf(self.farmer)))")],
           modifies=["*"],
           ensures=[
               ("dispatch_runner", "implies(isinstance(old(self.farmer), Runner), called('Crop.reap_runner') and call_arg('Crop.reap_runner', 'runner') == old(self.farmer) "
